@@ -13,16 +13,19 @@ package keeper
 
 //@ func Keeper.SetBeacon(ctx, beacon) (err)
 //@   props C07 C08 C09
+//@   nopanic
 //@   modifies bea_store
 //@   ensures err == nil && bea_store == bcPut(old(bea_store), beacon)
 
 //@ func Keeper.IsBeaconRegistered(ctx, beaconID) (ok)
 //@   props C07 C08 C09
+//@   nopanic
 //@   pure
 //@   ensures ok == bcHas(bea_store, beaconID)
 
 //@ func Keeper.GetBeacon(ctx, beaconID) (b, found)
 //@   props C07 C08 C09
+//@   nopanic
 //@   pure
 //@   ensures found == bcHas(bea_store, beaconID)
 //@   ensures found ==> b == bcGet(bea_store, beaconID)
@@ -59,11 +62,13 @@ package keeper
 
 //@ func Keeper.HasBeaconStorageLimit(ctx, beaconID) (ok)
 //@   props C08 C09
+//@   nopanic
 //@   pure
 //@   ensures ok == blimHas(bea_store, beaconID)
 
 //@ func Keeper.GetBeaconStorageLimit(ctx, beaconID) (lim, found)
 //@   props C08 C09
+//@   nopanic
 //@   pure
 //@   ensures found == blimHas(bea_store, beaconID)
 //@   ensures found ==> lim == unmarshalBLimit(bea_store[kBLimit(beaconID)])
@@ -78,11 +83,13 @@ package keeper
 
 //@ func Keeper.SetBeaconTimestamp(ctx, beaconId, beaconTimestamp) (err)
 //@   props C07 C08
+//@   nopanic
 //@   modifies bea_store
 //@   ensures err == nil && bea_store == tsPut(old(bea_store), beaconId, beaconTimestamp)
 
 //@ func Keeper.IsBeaconTimestampRecordedByID(ctx, beaconID, timestampID) (ok)
 //@   props C07 C08
+//@   nopanic
 //@   pure
 //@   ensures ok == tsHas(bea_store, beaconID, timestampID)
 
@@ -94,6 +101,7 @@ package keeper
 
 //@ func Keeper.deleteBeaconTimestamp(ctx, beaconId, beaconTimestampId) (err)
 //@   props C07 C08
+//@   nopanic
 //@   modifies bea_store
 //@   ensures err == nil
 //@   ensures tsHas(old(bea_store), beaconId, beaconTimestampId) ==> bea_store == tsDel(old(bea_store), beaconId, beaconTimestampId)
@@ -103,6 +111,7 @@ package keeper
 
 //@ func Keeper.GetParams(ctx) (params)
 //@   props C08 C09 C16 C06
+//@   nopanic
 //@   pure
 //@   ensures beaParamsSet(bea_store) ==> params == beaParams(bea_store)
 
@@ -116,6 +125,7 @@ package keeper
 
 //@ func Keeper.GetParamDenom(ctx) (r)
 //@   props C06 C16
+//@   nopanic
 //@   pure
 //@   ensures beaParamsSet(bea_store) ==> r == beaParams(bea_store).Denom
 //@ func Keeper.GetParamRegistrationFee(ctx) (r)
@@ -254,7 +264,8 @@ package keeper
 
 // logging has no effect on module state
 //@ func Keeper.Logger(ctx) (l)
-//@   trusted the logger handle is not modelled; the method only derives a logger from the context
+//@   props C01
+//@   nopanic
 //@   pure
 
 
